@@ -312,6 +312,99 @@ var opTable = map[string]opSpec{
 		u := math.Floor(math.Abs(p[0])/(1+math.Abs(p[0]))*float64(d.N1*d.N2)*2.2) / 2
 		return f2(d.CDF(u), d.PMF(u))
 	}},
+	// value-type distributions and special functions (scalars select the parameters)
+	"Dist.Normal": {nil, 2, false, func(o []*obj, p []float64) []uint64 {
+		d := stats.NormalDist{Mu: p[0], Sigma: 0.5 + math.Abs(p[1])}
+		lo, hi := d.Bounds()
+		return append(append(f2(d.PDF(p[1]), d.CDF(p[1])), f2(d.InvCDF(math.Abs(p[1])/(1+math.Abs(p[1]))), d.Mean())...), f2(lo, hi)...)
+	}},
+	"Dist.T": {nil, 2, false, func(o []*obj, p []float64) []uint64 {
+		d := stats.TDist{V: 0.5 + math.Abs(p[0])*3}
+		return f2(d.PDF(p[1]), d.CDF(p[1]))
+	}},
+	"Dist.Binomial": {nil, 2, false, func(o []*obj, p []float64) []uint64 {
+		d := stats.BinomialDist{N: 3 + int(math.Abs(p[0])*7), P: math.Abs(p[1]) / (1 + math.Abs(p[1]))}
+		k := math.Floor(math.Abs(p[0]) * 3)
+		return append(f2(d.PMF(k), d.CDF(k)), f2(d.Mean(), d.Variance())...)
+	}},
+	"Dist.Hypergeometric": {nil, 2, false, func(o []*obj, p []float64) []uint64 {
+		n := 6 + int(math.Abs(p[0])*5)
+		d := stats.HypergeometicDist{N: n, K: n / 2, Draws: 1 + int(math.Abs(p[1])*3)%n}
+		k := math.Floor(math.Abs(p[1]) * 2)
+		return append(f2(d.PMF(k), d.CDF(k)), f2(d.Mean(), d.Variance())...)
+	}},
+	"QuantileCI": {nil, 2, false, func(o []*obj, p []float64) []uint64 {
+		ci := stats.QuantileCI(5+int(math.Abs(p[0])*11), math.Abs(p[1])/(1+math.Abs(p[1])), 0.9)
+		return append([]uint64{uint64(ci.LoOrder), uint64(ci.HiOrder), bbit(ci.Ambiguous)}, f1(ci.Confidence)...)
+	}},
+	"mathx.Gamma": {nil, 2, false, func(o []*obj, p []float64) []uint64 {
+		a, x := 0.25+math.Abs(p[0])*2, math.Abs(p[1])*3
+		return append(f2(mathx.GammaInc(a, x), mathx.GammaIncComp(a, x)), f2(mathx.Beta(a, x+0.5), mathx.Lchoose(20+int(a*3), int(x)))...)
+	}},
+	"TTest.One": {[]string{"s"}, 1, false, func(o []*obj, p []float64) []uint64 {
+		if o[0].smp.Weights != nil {
+			return nil
+		}
+		r, err := stats.OneSampleTTest(*o[0].smp, p[0], stats.LocationDiffers)
+		if err != nil {
+			return errBits(err)
+		}
+		return append(f2(r.T, r.DoF), f1(r.P)...)
+	}},
+	"H.IQR": {[]string{"lh"}, 0, false, func(o []*obj, p []float64) []uint64 {
+		u, c, ov := o[0].lh.Counts()
+		r := []uint64{uint64(u), uint64(ov), math.Float64bits(stats.HistogramIQR(o[0].lh)), math.Float64bits(o[0].lh.BinToValue(1.5))}
+		for _, v := range c {
+			r = append(r, uint64(v))
+		}
+		return r
+	}},
+	"LogHist": {[]string{"f"}, 1, false, func(o []*obj, p []float64) []uint64 {
+		h := stats.NewLogHist(2, 2, 64)
+		for _, x := range o[0].f {
+			h.Add(math.Abs(x)*4 + 0.1)
+		}
+		u, c, ov := h.Counts()
+		r := []uint64{uint64(u), uint64(ov), math.Float64bits(stats.HistogramQuantile(h, math.Abs(p[0])/(1+math.Abs(p[0]))))}
+		for _, v := range c {
+			r = append(r, uint64(v))
+		}
+		return r
+	}},
+	"vec.Linspace": {nil, 2, false, func(o []*obj, p []float64) []uint64 {
+		return append(fbits(vec.Linspace(p[0], p[1], 5)), fbits(vec.Logspace(p[0], p[1], 4, 2))...)
+	}},
+	"vec.Vectorize": {[]string{"f"}, 0, false, func(o []*obj, p []float64) []uint64 {
+		return fbits(vec.Vectorize(math.Abs)(o[0].f))
+	}},
+	// graphs: further entry points
+	"PreOrder2": {[]string{"g"}, 0, false, func(o []*obj, p []float64) []uint64 {
+		return append(ibits(graphalg.PreOrder(o[0].g, len(o[0].g)-1)), ibits(graphalg.PostOrder(o[0].g, len(o[0].g)-1))...)
+	}},
+	"Euler": {[]string{"g"}, 0, false, func(o []*obj, p []float64) []uint64 {
+		var r []uint64
+		graphalg.Euler{Enter: func(n int) { r = append(r, uint64(n)) }, Exit: func(n int) { r = append(r, 1<<32|uint64(n)) }}.Visit(o[0].g, 0)
+		return r
+	}},
+	"DomFrontier": {[]string{"g"}, 0, false, func(o []*obj, p []float64) []uint64 {
+		b := graph.MakeBiGraph(o[0].g)
+		var r []uint64
+		for _, l := range graphalg.DomFrontier(b, 0, nil) {
+			r = append(append(r, ibits(l)...), 1<<40)
+		}
+		return r
+	}},
+	"Dot.Label": {[]string{"g"}, 0, false, func(o []*obj, p []float64) []uint64 {
+		return strBits(graphout.Dot{Name: "g\"x", Label: func(n int) string { return fmt.Sprint("n", n, "{") }}.Sprint(o[0].g))
+	}},
+	"SubgraphKeep": {[]string{"g"}, 0, false, func(o []*obj, p []float64) []uint64 {
+		s := graph.SubgraphKeep(o[0].g, []int{0, len(o[0].g) - 1}, nil)
+		var r []uint64
+		for v := 0; v < s.NumNodes(); v++ {
+			r = append(append(r, ibits(s.Out(v))...), 1<<40)
+		}
+		return r
+	}},
 	"UD.Inv": {[]string{"ud"}, 1, false, func(o []*obj, p []float64) []uint64 {
 		return f1(stats.InvCDF(*o[0].ud)(math.Abs(p[0]) / (1 + math.Abs(p[0]))))
 	}},
@@ -648,7 +741,7 @@ func genC20(w *bufio.Writer, tier string, rng *rand.Rand) {
 		}
 		add("s", fmt.Sprintf("[s,%s,%s,0]", fmtFs(tiedUnsorted(rng, wsn, positive)), fmtFs(wts)))
 		add("s", fmt.Sprintf("[s,alias,%d,0]", rng.Intn(3))) // shares storage with a slice object
-		{ // ascending, weighted (zeros among the weights), marked Sorted: queries work on the caller's own slices
+		{                                                    // ascending, weighted (zeros among the weights), marked Sorted: queries work on the caller's own slices
 			xs := tiedUnsorted(rng, wsn, positive)
 			sort.Float64s(xs)
 			w2 := make([]float64, wsn)
